@@ -150,7 +150,8 @@ def do_replay(path, quiet=False):
         # suspected non-termination: reproduced iff the real code does not return within the wall limit
         hit = status == "timeout"
     else:
-        hit = rec["key"] in keys
+        # (for obligations whose subject is termination, a replay that does not return is the reproduction, whatever the label)
+        hit = rec["key"] in keys or (status == "timeout" and getattr(ob, "budget_is_violation", False))
     if not quiet:
         print(json.dumps(dict(status=status, reproduced=hit, keys=keys, missing_inputs=c.missing,
                               required_failures=[list(map(str, r)) for r in req[:5]])))
@@ -228,18 +229,28 @@ def run_check(pid, tier, seed, only, jobs, write_evidence=True):
     ctx = mp.get_context("fork")
     pool = ctx.Pool(processes=max(1, jobs), maxtasksperchild=2000)
     harness_errors = []
+    lost_workers = []
+    grace = max([o.path_wall_s or 60.0 for o in obs.values()] + [60.0]) + 90.0
 
     def drain(order):
         pending = []
         for n in order:
             ob = obs[n]
-            pending.append(pool.apply_async(run_task, ((pid, tier, n, None, ob.split, qtimeout, deadline),)))
+            pending.append((n, pool.apply_async(run_task, ((pid, tier, n, None, ob.split, qtimeout, deadline),))))
         while pending:
             nxt = []
             progressed = False
-            for r in pending:
+            if time.time() > deadline + grace:
+                # every task stops at the deadline (checked between paths) or at its path budget: what is still pending now was
+                # lost with its worker process (a crash inside a compiled library kills the process, the pool only replaces it)
+                for n_lost in sorted(set(o for o, _r in pending)):
+                    agg[n_lost]["errors"].append("task lost: its worker process died or hung (not a verdict)")
+                lost_workers.append(True)
+                return
+            for item in pending:
+                n_ob, r = item
                 if not r.ready():
-                    nxt.append(r)
+                    nxt.append(item)
                     continue
                 progressed = True
                 res = r.get()
@@ -263,7 +274,7 @@ def run_check(pid, tier, seed, only, jobs, write_evidence=True):
                 fr = res["frontiers"]
                 rnd.shuffle(fr)
                 for pre in fr:
-                    nxt.append(pool.apply_async(run_task, ((pid, tier, res["ob"], pre, None, qtimeout, deadline),)))
+                    nxt.append((res["ob"], pool.apply_async(run_task, ((pid, tier, res["ob"], pre, None, qtimeout, deadline),))))
             pending = nxt
             if not progressed:
                 time.sleep(0.05)
@@ -274,8 +285,12 @@ def run_check(pid, tier, seed, only, jobs, write_evidence=True):
     rnd.shuffle(req)  # VERIF_SEED only permutes scheduling
     rnd.shuffle(dep)
     drain(req)
-    drain(dep)
-    pool.close()
+    if not lost_workers:
+        drain(dep)
+    if lost_workers:
+        pool.terminate()
+    else:
+        pool.close()
     pool.join()
 
     # ---- verdicts
